@@ -36,7 +36,7 @@ def rule_move(ctx):
     ctx.ob("MOVE", "into_builder consumes self", facts.fns[ks[0]]["inputs"][0].startswith("GenericPurl<"), fn=ks[0], detail=str(facts.fns[ks[0]]["inputs"]))
 
 
-def rule_idemp(ctx):
+def rule_idemp(ctx, shapes=None):
     facts = ctx.facts()
     bm = models.builder_model(facts)
     bk = bm["key"]
@@ -46,7 +46,7 @@ def rule_idemp(ctx):
     lowered = (VALID_TYPE_SET & ~AZ) | sum(1 << (c + 32) for c in range(65, 91) if (VALID_TYPE_SET >> c) & 1)
     ctx.ob("IDEMP", "type: the valid-type alphabet is closed under ASCII lower-casing (a lower-cased valid type is valid)", lowered & ~VALID_TYPE_SET == 0, detail="computed from the alphabet of is_valid_package_type")
     ctx.note("type: ASCII lower-casing is idempotent ([A-Z] -> [a-z], every other char fixed): table fact of the callee semantics")
-    C13.idempotence_obligations(ctx, facts, rule="IDEMP-SHAPES")
+    C13.idempotence_obligations(ctx, facts, rule="IDEMP-SHAPES", only=shapes)
     # --- S2
     ok = len(st["S2"]) == 1 and st["S2"][0]["triggers"] == [("empty", ("Field", "arg1.parts.name"), True)]
     ctx.ob("IDEMP", "S2 (name test) is a pure test: it writes nothing", ok, fn=bk, site=fn_site(facts, bk), detail="")
